@@ -59,6 +59,17 @@ impl fmt::Debug for FsWatcherBuilder {
 }
 
 fn id_of_path(id_builder: &mut IdBuilder, root: &Path, path: &Path) -> Option<OwnedDirEntry> {
+    id_of_path_with_kind(id_builder, root, path, path.is_dir())
+}
+
+/// Like `id_of_path`, for when the file system cannot tell anymore whether
+/// `path` is a directory (eg after it was removed).
+fn id_of_path_with_kind(
+    id_builder: &mut IdBuilder,
+    root: &Path,
+    path: &Path,
+    is_dir: bool,
+) -> Option<OwnedDirEntry> {
     id_builder.reset();
 
     // The root directory itself (eg when something is created or removed
@@ -80,7 +91,7 @@ fn id_of_path(id_builder: &mut IdBuilder, root: &Path, path: &Path) -> Option<Ow
     id_builder.push(path.file_stem()?.to_str()?)?;
     let id = id_builder.join();
 
-    let entry = if path.is_dir() {
+    let entry = if is_dir {
         OwnedDirEntry::Directory(id)
     } else {
         let ext = crate::utils::extension_of(path)?.into();
@@ -139,10 +150,23 @@ impl notify::EventHandler for NotifyEventHandler {
                             None => vec![&*path],
                         },
                         notify::EventKind::Any | notify::EventKind::Modify(_) => vec![&*path],
-                        notify::EventKind::Remove(_) => match path.parent() {
-                            Some(parent) => vec![parent],
-                            None => vec![],
-                        },
+                        notify::EventKind::Remove(kind) => {
+                            // The removed entry itself must be reported too (an
+                            // asset may have to fall back to another file), but
+                            // it cannot be inspected anymore.
+                            let is_dir = kind == notify::event::RemoveKind::Folder;
+                            let ids = self.roots.iter().filter_map(|root| {
+                                id_of_path_with_kind(&mut self.id_builder, root, &path, is_dir)
+                            });
+                            if self.events.send_multiple(ids).is_err() {
+                                drop(self.watcher.take());
+                            }
+
+                            match path.parent() {
+                                Some(parent) => vec![parent],
+                                None => vec![],
+                            }
+                        }
                         notify::EventKind::Access(_) | notify::EventKind::Other => return,
                     };
                     let ids = paths
